@@ -146,13 +146,15 @@ PROPS["C04"] = dict(
     technique="metamorphic/relational testing between two entry points: Check vs Validate-of-own-example on generated ruled schemas, plus single-rule corruptions with printer-recorded value offsets",
     level_text=("Bounded exploration: (a) for generated plain-JSON schemas with arbitrary rule combinations, whenever Check succeeds the example rendered as bare JSON must validate against the same schema; "
                 "(b) for each accepted schema one ruled node's example is replaced by a value violating exactly that rule (bound, precision, length, pattern, enum, format, item count, declared type) and Check "
-                "must fail reporting the offset of that value as recorded by the schema printer. Sampled."),
+                "must fail reporting the offset of that value as recorded by the schema printer; (c) one type object added to two roots (differential against roots built from fresh objects; a violating example "
+                "in the shared type, or one that only root 2's registry makes violating, must be rejected by the second Check as well). Sampled."),
     level_note="trusted: the schema printer's offsets and the corruption constructors (each corruption is built from the rule parameter, not from the library)",
     rule=("schemas: trees (depth<=3) of objects/arrays whose scalar nodes carry the C02 rule sets and whose arrays may carry minItems/maxItems, objects additionalProperties; inline and multi-line annotations. "
           "non-trivial: (a) Check succeeded and a rule sits at depth>=1; (b) every corruption. distinct by schema text"),
     assumptions=["a corrupted value violates the targeted rule (constructed from the rule parameter with exact arithmetic / regexp)"],
     jobs=[job("check-vs-example", "^TestCheckVsExample$", (4, 16), (8000, 30000), (600, 3000)),
-          job("type-rule-reference", "^TestTypeRuleReference$", (2, 8), (6000, 30000), (600, 3000))],
+          job("type-rule-reference", "^TestTypeRuleReference$", (2, 8), (6000, 30000), (600, 3000)),
+          job("shared-type-object", "^TestSharedTypeObject$", (2, 8), (4000, 30000), (600, 3000))],
 )
 PROPS["C08"] = dict(
     pkg="c08", level="exploration", exhaustive_claim=False,
